@@ -4,6 +4,9 @@ From ZV.C18 Require Import Model ProofsQueue ProofsOrder ProofsProgress ProofsCo
 From ZV.C18 Require Import ModelFiber ProofsFiber ProofsFiberReduce.
 From ZV.C18 Require Import ModelPipe ProofsPipe ProofsPipeStream.
 From ZV.C18 Require Import ModelExec ProofsExec ProofsExec2.
+From ZV.C18 Require Import ModelGlobalPar ProofsGlobalPar.
+(* the dispatcher the harness-generated case files import: listed here so that building this file builds it *)
+From ZV.C18 Require ModelCases.
 From Coq Require Import Permutation.
 Open Scope N_scope.
 
@@ -640,3 +643,55 @@ Check is_idle_window_exists :
   x_is_idle x = true /\ x_acc x = [idle_window_task] /\ edone (x_e x) = [] /\ x_held x = [idle_window_task] /\
   nth_error (x_ph x) 0 = Some PhFound.
 Print Assumptions is_idle_window_exists.
+
+(* concurrency::parallel_reduce as written (chunk_size = (len + ncpu - 1) / ncpu, chunks(), one tokio task per chunk,
+   join_all, final fold): for every ncpu >= 1, input and schedule of the chunk tasks the chunks partition the input
+   (at most ncpu of them, none empty), and for a monoid the call returns the sequential left fold whenever it returns *)
+Theorem global_reduce_is_fold :
+  forall (T : Type) (g : T -> T -> T) (ident : T),
+    (forall a b c, g (g a b) c = g a (g b c)) -> (forall a, g ident a = a) -> (forall a, g a ident = a) ->
+    forall (ncpu maxf : N) (xs : list T) (steps : list pstep),
+      0 < ncpu ->
+      let op := fun a b => Some (g a b) in
+      (forall r, g_reduce_result op ident ncpu xs (pool_run (g_reduce_jobs op ident ncpu xs) maxf steps) = Some r ->
+                 r = Some (fold_left g xs ident)) /\
+      (1 <= maxf -> exists more,
+         g_reduce_result op ident ncpu xs (pool_run (g_reduce_jobs op ident ncpu xs) maxf (steps ++ more)) <> None).
+Proof. exact g_reduce_is_fold_proof. Qed.
+Check global_reduce_is_fold :
+  forall (T : Type) (g : T -> T -> T) (ident : T),
+    (forall a b c, g (g a b) c = g a (g b c)) -> (forall a, g ident a = a) -> (forall a, g a ident = a) ->
+    forall (ncpu maxf : N) (xs : list T) (steps : list pstep),
+      0 < ncpu ->
+      let op := fun a b => Some (g a b) in
+      (forall r, g_reduce_result op ident ncpu xs (pool_run (g_reduce_jobs op ident ncpu xs) maxf steps) = Some r ->
+                 r = Some (fold_left g xs ident)) /\
+      (1 <= maxf -> exists more,
+         g_reduce_result op ident ncpu xs (pool_run (g_reduce_jobs op ident ncpu xs) maxf (steps ++ more)) <> None).
+Print Assumptions global_reduce_is_fold.
+
+(* the chunks of concurrency::parallel_reduce: concatenate to the input, none empty or longer than the chunk size, at most ncpu tasks *)
+Theorem global_reduce_chunks_partition :
+  forall (T : Type) (ncpu : N) (xs : list T), 0 < ncpu ->
+    concat (g_chunks ncpu xs) = xs /\
+    Forall (fun c => c <> [] /\ nlen c <= g_chunk_size (nlen xs) ncpu) (g_chunks ncpu xs) /\
+    nlen (g_chunks ncpu xs) <= ncpu.
+Proof. exact (@g_chunks_shape). Qed.
+Check global_reduce_chunks_partition :
+  forall (T : Type) (ncpu : N) (xs : list T), 0 < ncpu ->
+    concat (g_chunks ncpu xs) = xs /\
+    Forall (fun c => c <> [] /\ nlen c <= g_chunk_size (nlen xs) ncpu) (g_chunks ncpu xs) /\
+    nlen (g_chunks ncpu xs) <= ncpu.
+Print Assumptions global_reduce_chunks_partition.
+
+(* a failing item makes concurrency::parallel_reduce return Err under every schedule *)
+Theorem global_reduce_error_surfaces :
+  forall (T : Type) (op : T -> T -> option T) (ident : T) (ncpu maxf : N) (xs : list T) (steps : list pstep) (x : T),
+    0 < ncpu -> In x xs -> (forall a, op a x = None) ->
+    forall r, g_reduce_result op ident ncpu xs (pool_run (g_reduce_jobs op ident ncpu xs) maxf steps) = Some r -> r = None.
+Proof. exact g_reduce_error_proof. Qed.
+Check global_reduce_error_surfaces :
+  forall (T : Type) (op : T -> T -> option T) (ident : T) (ncpu maxf : N) (xs : list T) (steps : list pstep) (x : T),
+    0 < ncpu -> In x xs -> (forall a, op a x = None) ->
+    forall r, g_reduce_result op ident ncpu xs (pool_run (g_reduce_jobs op ident ncpu xs) maxf steps) = Some r -> r = None.
+Print Assumptions global_reduce_error_surfaces.
